@@ -1,6 +1,6 @@
 (* C05 — command sequences acknowledge every packet once and stop at the final packet.  Statements only. *)
 From Zvt Require Import Base Length Cp437 Encoding Codec Lookup Transport TransportProps Sequence SequenceProps SpecCheck.
-From Zvt Require Import Client ClientLog.
+From Zvt Require Import SeqLookup Client ClientLog.
 Open Scope N_scope.
 
 (* a well-formed reply script: acknowledgement, non-final replies, the first final reply, then anything.
@@ -58,6 +58,23 @@ Theorem C05_client_poll_is_one_step : forall q id d w, settled (get_conn w id) -
   end.
 Proof. exact seq_next_is_rp. Qed.
 
+(* ... and a WHOLE exchange: polling the sequence inside the client until it says it is done (poll_exchange) yields exactly the
+   items and performs exactly the writes of the trace model on the buffered bytes (run_seq_fuel is run_seq with its loop fuel as a
+   parameter: C05_run_seq_is_fuel) — the model of C05 / C06 / C11 and the model of C07..C10 / C18..C20 are two views of one semantics *)
+Theorem C05_client_exchange_agrees_with_trace_model : forall q id d k w,
+  valid_id w id -> settled (get_conn w id) -> w_now w <= d ->
+  let evs := run_seq_fuel (S k) (q_mode q) (q_cmd q) ack_enum (q_replies q) (k_buf (get_conn w id)) in
+  let '(its, w') := poll_exchange k q id d w in
+  map item_obs its = ev_items evs /\
+  w_log w' = rev (map (fun b => EWrite id (w_now w) b) (ev_writes evs)) ++ w_log w.
+Proof. exact exchange_agrees. Qed.
+Theorem C05_run_seq_is_fuel : forall m cmd ack vs s,
+  fst (run_seq m cmd ack vs s) =
+  run_seq_fuel (match rp ack s with (_, Some (_, _, r)) => S (length r) | _ => O end) m cmd ack vs s.
+Proof. exact run_seq_is_fuel. Qed.
+
+Print Assumptions C05_client_exchange_agrees_with_trace_model.
+Print Assumptions C05_run_seq_is_fuel.
 Print Assumptions C05_client_poll_is_one_step.
 Print Assumptions C05_seq_trace_shape.
 Print Assumptions C05_single_is_one_reply.
